@@ -27,6 +27,8 @@ CFG = dict(
          "3-4 named configs, 1-2 failing edits of existing names, then 1-3 more requests); every step is observed twice: through readSettings "
          "and by an independent JSON decode of the file, which must agree; fs-edits (python hook): one process does overwrite/delete/append, "
          "with each system call of its writeSettings part failed by strace in turn, then menu/save/delete/save. "
+         "(f') read faults: save?/delete?/menu? requests run while settings.json cannot be read (mode 000 in a writable directory; as root the "
+         "process's file-system uid is switched to nobody for the request) and, in fs-edits, with EACCES/EPERM/EIO injected at the open/read; "
          "(g) burst: the FIRST edits a never-edited settings file sees arrive simultaneously (spin barrier, 3-8 requests with distinct names, "
          "half through the HTTP handlers); the final file is compared up to order with the sequential result. "
          "distinct = sha256 of the input term; non-trivial = URL changed (url), non-empty query (apply), at least one successful edit (seq), always (conc, fs)",
